@@ -810,9 +810,14 @@ def build_ring(spec):
 
 
 def check_ring_geo(spec, ctx):
+    B, area = build_ring(spec)
+    _check_geo_complex(spec, ctx, B, area, spec["k"])
+    ctx.flag("k=%d" % spec["k"])
+
+
+def _check_geo_complex(spec, ctx, B, area, n_interfaces):
     import scipy.sparse
     from pyiga import assemble, bspline, assemblers
-    B, area = build_ring(spec)
     patches = []
     for P in B:
         kvs = tuple(bspline.KnotVector(t, p) for t, p in P["kvs"])
@@ -822,8 +827,8 @@ def check_ring_geo(spec, ctx):
     labels = [P["labels"] for P in B]
     shapes = [L.shape for L in labels]
     expected = G.find_interfaces(labels)
-    if len(expected) != spec["k"]:
-        raise RuntimeError("harness: ring of %d patches has %d interfaces" % (spec["k"], len(expected)))
+    if len(expected) != n_interfaces:
+        raise RuntimeError("harness: complex of %d patches has %d interfaces, expected %d" % (len(B), len(expected), n_interfaces))
     connected, found = ctx.sut(assemble.detect_interfaces, patches, what="detect_interfaces")
     fset = [(int(p1), (int(b1[0]), int(b1[1])), int(p2), (int(b2[0]), int(b2[1])), tuple(bool(x) for x in fl))
             for (p1, b1, p2, b2, fl) in found]
@@ -890,7 +895,6 @@ def check_ring_geo(spec, ctx):
         if not err <= 1e-9 * gmax:
             raise Violation("bc_values", "Dirichlet value off by %.3g" % err)
         ctx.flag("dirichlet")
-    ctx.flag("k=%d" % spec["k"])
     if any(any(fl) for (_, _, _, _, fl) in expected):
         ctx.flag("flipped_interface")
     if spec["order"] != sorted(spec["order"]):
@@ -904,6 +908,91 @@ def check_ring_geo(spec, ctx):
         seen.update((p1, p2))
         uf2.union(p1, p2)
     ctx.nontrivial = True
+
+
+# =============================================================================================
+# 5. polygonal annulus (no common vertex) cut into g >= 2 patches of several sectors each: for g = 2 the two patches share TWO
+#    faces (a C-shaped patch closed by a second one); piecewise bilinear geometry (degree 1, one span per sector)
+
+def build_annulus(spec):
+    k, p = spec["k"], spec["p"]
+    parts = spec["parts"]
+    assert sum(parts) == k and len(parts) >= 2
+    O = np.array(spec["center"], dtype=float)
+    th = [2.0 * math.pi * (j + 0.15 * spec["jit"][j]) / k for j in range(k)]
+    rin = [1.0 + 0.125 * spec["rad"][j] for j in range(k)]
+    rout = [2.5 + 0.25 * spec["rad"][(j + 1) % k] for j in range(k)]
+    I = [O + rin[j] * np.array([math.cos(th[j]), math.sin(th[j])]) for j in range(k)]
+    Q = [O + rout[j] * np.array([math.cos(th[j]), math.sin(th[j])]) for j in range(k)]
+
+    def poly_area(P):
+        return 0.5 * sum(P[c - 1][0] * P[c][1] - P[c][0] * P[c - 1][1] for c in range(len(P)))
+    for j in range(k):
+        quad = [I[j], Q[j], Q[(j + 1) % k], I[(j + 1) % k]]
+        for c in range(4):
+            u, v, w = quad[c - 1], quad[c], quad[(c + 1) % 4]
+            # (I, Q, Q', I') is traversed counter-clockwise for increasing angle: all turns must be left turns
+            cr = (v[0] - u[0]) * (w[1] - v[1]) - (v[1] - u[1]) * (w[0] - v[0])
+            if cr <= 1e-3:
+                raise Skip("non-convex sector")
+    area = poly_area(Q) - poly_area(I)
+    sub, nr = spec["sub"], spec["nr"]
+    kn_r = np.concatenate(([0.0] * p, np.linspace(0.0, 1.0, nr + 1), [1.0] * p))
+    NR = len(kn_r) - p - 1
+    nas = [len(np.concatenate(([0.0] * p, np.linspace(0.0, 1.0, c * sub + 1), [1.0] * p))) - p - 1 for c in parts]
+    T = sum(n - 1 for n in nas)
+    canon, geos, kns = [], [], []
+    s0, off = 0, 0
+    for t, c in enumerate(parts):
+        kn_a = np.concatenate(([0.0] * p, np.linspace(0.0, 1.0, c * sub + 1), [1.0] * p))
+        na = nas[t]
+        L = np.empty((na, NR), dtype=int)
+        for a in range(na):
+            L[a, :] = ((off + a) % T) * NR + np.arange(NR)
+        C = np.empty((c + 1, 2, 2))
+        for jj in range(c + 1):
+            C[jj, 0], C[jj, 1] = I[(s0 + jj) % k], Q[(s0 + jj) % k]
+        gkn_a = np.concatenate(([0.0], np.linspace(0.0, 1.0, c + 1), [1.0]))
+        canon.append(L)
+        geos.append(([(gkn_a, 1), (np.array([0.0, 0.0, 1.0, 1.0]), 1)], C))
+        kns.append([kn_a, kn_r])
+        s0 += c
+        off += na - 1
+    patches = []
+    for pos in spec["order"]:
+        pi, fb = spec["rep"][pos]
+        perm = G.PERMS[2][pi % 2]
+        fb %= 4
+        pk = [(G.map_knots(kns[pos][perm[a]], p, 0.0, 1.0, False, bool((fb >> a) & 1)), p) for a in range(2)]
+        gkv, C = geos[pos]
+        # the geometry knots are uniform, hence invariant under the flip
+        patches.append({"kvs": pk, "geo": ([gkv[perm[a]] for a in range(2)], np.ascontiguousarray(G.reparam(C, perm, fb))),
+                        "labels": G.reparam(canon[pos], perm, fb)})
+    return patches, area
+
+
+def check_annulus(spec, ctx):
+    B, area = build_annulus(spec)
+    g = len(spec["parts"])
+    _check_geo_complex(spec, ctx, B, area, g)
+    ctx.flag("patches=%d" % g, "pair_shares_two_faces" if g == 2 else None)
+
+
+@st.composite
+def strat_annulus(draw, tier):
+    k = draw(st.integers(3, 7))
+    g = draw(st.sampled_from([2, 2, 3, 4]))
+    g = min(g, k)
+    # composition of k into g positive parts
+    cuts = sorted(draw(st.permutations(list(range(1, k))))[:g - 1])
+    parts = [b - a for a, b in zip([0] + cuts, cuts + [k])]
+    return {"k": k, "parts": parts, "p": draw(st.integers(1, 3)), "sub": draw(st.integers(1, 2)), "nr": draw(st.integers(1, 3)),
+            "rad": [draw(st.integers(0, 2)) for _ in range(k)], "jit": [draw(st.integers(-1, 1)) for _ in range(k)],
+            "center": [draw(st.sampled_from([0.0, 1.0, -3.0])), draw(st.sampled_from([0.0, 2.0]))],
+            "rep": [[draw(st.integers(0, 1)), draw(st.integers(0, 3))] for _ in range(g)],
+            "order": list(draw(st.permutations(list(range(g))))), "f": draw(st.integers(0, 3)),
+            "bc": [[draw(st.integers(0, 40)), draw(st.integers(0, 4)), draw(st.integers(0, 1))]
+                   for _ in range(draw(st.integers(0, 3)))]}
 
 
 @st.composite
@@ -940,5 +1029,10 @@ SUBCHECKS.append(
     Sub("ring_geometry", check_ring_geo, strategy=lambda tier: strat_ring_geo(tier), quick=240, thorough=3000, shards=8,
         floor=50, rule="k=3..8 bilinear patches around a vertex (non-grid topology), re-parametrised, patch list "
                        "permuted: detect_interfaces, automatch, own scatter of patch matrices, polygon area"))
+SUBCHECKS.append(
+    Sub("annulus", check_annulus, strategy=lambda tier: strat_annulus(tier), quick=240, thorough=3000, shards=8, floor=40,
+        rule="polygonal annulus cut into 2..4 multi-sector patches (piecewise bilinear geometry), re-parametrised, patch list "
+             "permuted; with 2 patches the pair shares TWO faces: detect_interfaces finds exactly the coinciding faces, automatch "
+             "glues both, own scatter of patch matrices, polygon area, Dirichlet data on the inner/outer boundary"))
 
 KNOWN = {}
